@@ -423,9 +423,11 @@ class IncludedServiceDeclaration(Attribute):
     service: Service
 
     def __init__(self, service: Service) -> None:
+        # The service UUID is only present when it is a 16-bit UUID
+        uuid_bytes = service.uuid.to_pdu_bytes()
         declaration_bytes = struct.pack(
-            '<HH2s', service.handle, service.end_group_handle, bytes(service.uuid)
-        )
+            '<HH', service.handle, service.end_group_handle
+        ) + (uuid_bytes if len(uuid_bytes) == 2 else b'')
         super().__init__(
             GATT_INCLUDE_ATTRIBUTE_TYPE, Attribute.READABLE, declaration_bytes
         )
